@@ -26,4 +26,5 @@ When done, leave in {wt}:
  * the source change as an UNCOMMITTED working-tree modification, and also saved as {wt}/SEED/patch.diff (`git diff -- . ':!tests' ':!SEED' > SEED/patch.diff`, source files only - the patch must apply to a clean checkout with `git apply`);
  * the demonstration copied to {wt}/SEED/ (e.g. SEED/demo_test.rs) and in place under tests/;
  * {wt}/SEED/REPORT.md: what the change is and why it breaks the property, exactly what is needed for it to manifest, the commands you ran and their results (demo fails with the change, passes without; full suite result with the list of any failing tests and whether each is in stable_pass).
+(create REPORT.md with a shell heredoc - `cat > SEED/REPORT.md <<'EOF' ... EOF` - the file-write tool may refuse report files).
 Delete your TMPDIR. Reply with a short summary of the same.""")
